@@ -2,7 +2,8 @@
 # Licensed under the MIT License.
 from __future__ import annotations
 
-from typing import TypeVar
+import contextlib
+from typing import Iterator, TypeVar
 
 __all__ = [
     "basic_constant_propagation",
@@ -25,6 +26,47 @@ from onnxscript.optimizer._constant_folding import fold_constants as fold_consta
 from onnxscript.optimizer._optimizer import optimize_ir
 
 _ModelProtoOrIr = TypeVar("_ModelProtoOrIr", onnx.ModelProto, ir.Model)
+
+
+def _tensors_of_graph(graph: onnx.GraphProto) -> Iterator[onnx.TensorProto]:
+    yield from graph.initializer
+    for node in graph.node:
+        yield from _tensors_of_attributes(node.attribute)
+
+
+def _tensors_of_attributes(attributes) -> Iterator[onnx.TensorProto]:
+    for attr in attributes:
+        if attr.HasField("t"):
+            yield attr.t
+        yield from attr.tensors
+        if attr.HasField("g"):
+            yield from _tensors_of_graph(attr.g)
+        for graph in attr.graphs:
+            yield from _tensors_of_graph(graph)
+
+
+@contextlib.contextmanager
+def _preserve_tensor_names(model: onnx.ModelProto) -> Iterator[None]:
+    """Keep the tensor names of ``model`` unchanged while an IR view of it is transformed.
+
+    Deserialization wraps the TensorProtos of ``model`` without copying them, and the IR
+    writes tensor names through to them (for example when a Constant node is lifted to an
+    initializer). Only the names are recorded and restored; no tensor data is copied.
+    """
+    tensors = list(_tensors_of_graph(model.graph))
+    for function in model.functions:
+        for node in function.node:
+            tensors.extend(_tensors_of_attributes(node.attribute))
+    saved = [(tensor, tensor.name if tensor.HasField("name") else None) for tensor in tensors]
+    try:
+        yield
+    finally:
+        for tensor, name in saved:
+            if name is None:
+                if tensor.HasField("name"):
+                    tensor.ClearField("name")
+            elif tensor.name != name:
+                tensor.name = name
 
 
 def optimize(
@@ -69,18 +111,20 @@ def optimize(
         return model
     else:
         assert isinstance(model, onnx.ModelProto)
-        model_ir = ir.serde.deserialize_model(model)
-        optimize_ir(
-            model_ir,
-            num_iterations=num_iterations,
-            onnx_shape_inference=onnx_shape_inference,
-            stop_if_no_change=stop_if_no_change,
-            input_size_limit=input_size_limit,
-            output_size_limit=output_size_limit,
-            inline=inline,
-        )
-        # Move the model back to the proto
-        new_proto = ir.serde.serialize_model(model_ir)
+        # The input proto is not modified: tensor names written through by the IR are restored
+        with _preserve_tensor_names(model):
+            model_ir = ir.serde.deserialize_model(model)
+            optimize_ir(
+                model_ir,
+                num_iterations=num_iterations,
+                onnx_shape_inference=onnx_shape_inference,
+                stop_if_no_change=stop_if_no_change,
+                input_size_limit=input_size_limit,
+                output_size_limit=output_size_limit,
+                inline=inline,
+            )
+            # Move the model back to the proto
+            new_proto = ir.serde.serialize_model(model_ir)
         return new_proto
 
 
